@@ -3,7 +3,7 @@
 From Coq Require Import List NArith Bool Arith Lia String.
 From RG.Ast Require Import Tree Walker WalkerProof WalkSpec WfCheck.
 From RG.Engine Require Import Dispatch.
-From RGW Require Import Gen_AstSchema Gen_Walker Gen_WalkTables Inst_Walker.
+From RGW Require Import Gen_AstSchema Gen_Walker Gen_WalkTags Gen_WalkTables Inst_Walker.
 Import ListNotations.
 Local Open Scope N_scope.
 
